@@ -55,3 +55,16 @@ Proof.
   destruct sealed_empty_refuted as (_ & _ & H1 & _ & H2 & H3 & _ & H4). repeat split; assumption.
 Qed.
 Print Assumptions C02_pinned_refuted.
+
+(* ---- sessions on the PHYSICAL index: Open (clean or recovering), Close, kill, and the operations in
+   between, in any order: same outputs as the chain-index database, and the index stored on disk by
+   Close (bucket files, free list in index.pmt) is related again -- in particular it satisfies the
+   physical invariant, so a restart never finds a free-list entry that is also part of a chain *)
+From Pogreb Require Import DBSim DBSimExact Phys PhysProofs PhysDB.
+Theorem C02_physical_index_across_sessions :
+  forall P (l : list lop) (s1 : @DB.st phys) (s2 : @DB.st Index.pindex),
+  gst_rel PR s1 s2 -> loks Index.chain_ops P s2 l ->
+  lrun phys_ops P s1 l = lrun Index.chain_ops P s2 l /\
+  gst_rel PR (lfinal phys_ops P s1 l) (lfinal Index.chain_ops P s2 l).
+Proof. exact phys_sessions. Qed.
+Print Assumptions C02_physical_index_across_sessions.
